@@ -135,7 +135,10 @@ def generate(R, tier, focus):
             for k in range(R.randint(1, 5)):
                 evs.append({'cell': R.randrange(n_cells), 'fx': R.choice(gen.FRACS), 'fy': R.choice(gen.FRACS),
                             'mbin': R.randrange(nm), 'fm': R.choice(gen.FRACS)})
-            ops.append({'op': 'TARGET_RATES', 'events': evs, 'scale': R.random() < 0.5, 'actor': actor})
+            o = {'op': 'TARGET_RATES', 'events': evs, 'scale': R.random() < 0.5, 'actor': actor}
+            if not quad and R.random() < 0.15:
+                o['outside'] = R.choice(('hole', 'left', 'below', 'right', 'above'))   # one event the region does not contain
+            ops.append(o)
         else:
             evs = []
             for k in range(R.randint(0, 5)):
@@ -188,6 +191,23 @@ def load_forecast(path, scn):
 
 
 # --------------------------------------------------------------------------- execution
+
+def _outside_point(reg, which):
+    dh = reg['dh']
+    pt = None
+    if which == 'hole' and reg['holes']:
+        o = reg['holes'][0]
+        pt = (o[0] + dh * 0.5, o[1] + dh * 0.5)
+    elif which == 'left':
+        pt = (reg['ax'] - dh * 1.5, reg['ay'] + dh * 0.5)
+    elif which == 'below':
+        pt = (reg['ax'] + dh * 0.5, reg['ay'] - dh * 1.5)
+    elif which == 'right' and reg['nx'] >= 2:
+        pt = (reg['ax'] + dh * (reg['nx'] + 0.5), reg['ay'] + dh * 0.5)
+    elif which == 'above' and reg['ny'] >= 2:
+        pt = (reg['ax'] + dh * 0.5, reg['ay'] + dh * (reg['ny'] + 0.5))
+    return pt
+
 
 def execute(scn, ctx):
     store = SimStore()
@@ -444,21 +464,8 @@ def _execute(scn, ctx, store, clock, rng):
                                  'want': float(numpy.array(expected(factor['alts'][0]))[ci_, mb]),
                                  'cell': [c.get('lon0'), c.get('lat0'), c.get('qk')]})
         elif kind == 'LOOKUP_OUTSIDE':
-            reg = scn['region']
-            dh = reg['dh']
             which = op['which']
-            pt = None
-            if which == 'hole' and reg['holes']:
-                o = reg['holes'][0]
-                pt = (o[0] + dh * 0.5, o[1] + dh * 0.5)
-            elif which == 'left':
-                pt = (reg['ax'] - dh * 1.5, reg['ay'] + dh * 0.5)
-            elif which == 'below':
-                pt = (reg['ax'] + dh * 0.5, reg['ay'] - dh * 1.5)
-            elif which == 'right' and reg['nx'] >= 2:
-                pt = (reg['ax'] + dh * (reg['nx'] + 0.5), reg['ay'] + dh * 0.5)
-            elif which == 'above' and reg['ny'] >= 2:
-                pt = (reg['ax'] + dh * 0.5, reg['ay'] + dh * (reg['ny'] + 0.5))
+            pt = _outside_point(scn['region'], which)
             if pt is None:
                 continue
             r = call(lookup, [pt[0]], [pt[1]], [edges[0]])
@@ -472,17 +479,28 @@ def _execute(scn, ctx, store, clock, rng):
             want_rates = []
             ok_cells = True
             for k, e in enumerate(op['events']):
-                if e['cell'] >= len(cells) or cells[e['cell']].get('flag', 1) == 0:
-                    ok_cells = False
+                if e['cell'] >= len(cells):
+                    ok_cells = None
                     break
+                if cells[e['cell']].get('flag', 1) == 0:
+                    ok_cells = False        # an event in a switched-off cell: the call fails part-way (a fault in the op)
                 lon, lat, mag, mb = _point(scn, fc, dict(e, where='interior', mwhere='interior'), cell_index_of)
                 evs.append(['t%d' % k, scn['start_ms'] + 1000 * (k + 1), lat, lon, 5.0, mag])
                 want_rates.append((e['cell'], mb))
-            if not ok_cells:
+            if ok_cells is None or (not ok_cells and kind != 'TARGET_RATES'):
                 continue
+            if op.get('outside'):
+                pt = _outside_point(scn['region'], op['outside'])
+                if pt is not None:
+                    evs.insert(len(evs) // 2, ['tout', scn['start_ms'] + 500, pt[1], pt[0], 5.0, evs[0][5]])
+                    ok_cells = False
             cat = build.make_catalog(evs, region=fc.region, name='tc')
             before = hexf(numpy.array(fc.data))
-            if kind == 'TARGET_RATES':
+            if kind == 'TARGET_RATES' and not ok_cells:
+                # the library may answer or refuse; either way the forecast afterwards is what it was before
+                r = call(fc.target_event_rates, cat, scale=op['scale'])
+                ctx.count('fire:target_rates_event_in_flag0_cell:' + (r[1] if r[0] != 'ok' else 'answered'))
+            elif kind == 'TARGET_RATES':
                 r = call(fc.target_event_rates, cat, scale=op['scale'])
                 if r[0] != 'ok':
                     ctx.violate('C11', 'exception', 'TARGET_RATES:%s' % r[1], {'op': oi, 'msg': r[2]})
